@@ -157,6 +157,33 @@ func genRefGraphTR(r *rand.Rand, withBlocks, throwRecover bool) *gast.Grammar {
 	return g
 }
 
+// genDenseLR draws a left-recursive grammar whose first-call graph is one dense component: a hub,
+// a chain of n rules with skip edges (thousands of distinct cycles), a rule that lies on all
+// cycles but one and sorts before the hub, and a small side cycle.
+func genDenseLR(r *rand.Rand) *gast.Grammar {
+	n := 11 + r.Intn(5)
+	t := func(i int) string { return fmt.Sprintf("T%02d", i) }
+	g := &gast.Grammar{}
+	g.Rules = append(g.Rules, &gast.Rule{Name: "Hub", Expr: gast.C(gast.S(gast.Ref(t(1)), gast.L("x")), gast.S(gast.Ref("Zed"), gast.L("y")), gast.L("h"))})
+	for i := 1; i <= n; i++ {
+		var alts []*gast.Expr
+		for k := 1; k <= 3; k++ {
+			if i+k <= n {
+				alts = append(alts, gast.S(gast.Ref(t(i+k)), gast.L(string(rune('a'+k)))))
+			}
+		}
+		if i+1 > n {
+			alts = append(alts, gast.S(gast.Ref("Aux"), gast.L("e")))
+		}
+		alts = append(alts, gast.L(string(rune('A'+i%26))))
+		g.Rules = append(g.Rules, &gast.Rule{Name: t(i), Expr: gast.C(alts...)})
+	}
+	g.Rules = append(g.Rules, &gast.Rule{Name: "Aux", Expr: gast.C(gast.S(gast.Ref("Hub"), gast.L("u")), gast.L("v"))})
+	g.Rules = append(g.Rules, &gast.Rule{Name: "Zed", Expr: gast.C(gast.S(gast.Ref("Hub"), gast.L("z")), gast.L("w"))})
+	g.Finalize()
+	return g
+}
+
 // C19: generation is deterministic.
 func C19(c *Ctx) {
 	R := c.N(10, 40)
@@ -215,6 +242,12 @@ func C19(c *Ctx) {
 	for _, g := range c19Strata() {
 		add("stratum", g, 6) // once multi-line ...
 		add("stratum", g, 6) // ... and once with all rules on one line, under every flag set
+	}
+	for i := 0; i < c.N(2, 8); i++ {
+		g := genDenseLR(rng)
+		text := []byte(gast.Print(g, gast.PrintOpts{Pkg: "p", Plain: true}))
+		jobs = append(jobs, job{"dense-lr: " + fmt.Sprint(len(g.Rules)) + " rules", text, []string{"-support-left-recursion"}, len(g.Rules)},
+			job{"dense-lr: " + fmt.Sprint(len(g.Rules)) + " rules", text, []string{"-support-left-recursion", "-optimize-parser"}, len(g.Rules)})
 	}
 	ng := c.N(50, 600)
 	op := optProfile()
